@@ -264,3 +264,45 @@ Proof.
   { vm_compute. repeat split; discriminate. }
   exact (conj O1 (conj O2 R)).
 Qed.
+
+(* ---------------------------------------------------------------------------------------------
+   Tie to the code by translation + proof: the functions below are GENERATED on every run from /repo's
+   current Go source (translator/gen_gofuncs.go -> Gen/GoGauge.v); the theorems say that the hand-written model the
+   property theorems above are about computes what the generated function computes, for all arguments. *)
+From Coq Require Import String.
+From JK Require Import Base.GoSem Gen.GoGauge Proofs.GoTieGauge.
+
+(* one gauge in one reward block (keeper.pullTokensFromGauges, the body of the IterateGauges callback): removed
+   when past its end, when its end is not after its start, or when its escrow is empty, in that order; otherwise
+   its coins are released at the ratio Model/Gauge.v computes, and the model's pull_one decides alike *)
+Theorem C12_code_tie_gauge_step :
+  forall now g snap,
+    gen_pullGauge (g_start g) (g_end g) now true (cempty snap) = gauge_events (g_start g) (g_end g) now (cempty snap) /\
+    pull_one now g snap
+    = match gauge_events (g_start g) (g_end g) now (cempty snap) with
+      | GVal [Ev _ [r]] =>
+          match pull_coins r snap (g_coins g) with None => Gauge.GPanic | Some (b, mv) => GDone true b mv end
+      | GVal _ => GDone false snap []
+      | GoSem.GPanic => Gauge.GPanic
+      end.
+Proof.
+  intros now g snap.
+  exact (conj (gen_pullGauge_model (g_start g) (g_end g) now (cempty snap)) (pull_one_follows_gauge_events now g snap)).
+Qed.
+Print Assumptions C12_code_tie_gauge_step.
+
+(* one recorded coin of a gauge (the body of the loop over pg.Coins): the amount announced for distribution and
+   sent from the escrow is the model's pull_coin amount; nothing when it is zero; a panic exactly when the model
+   says so; and what actually reaches the reward pool is that amount when the escrow holds it, nothing otherwise *)
+Theorem C12_code_tie_coin_step :
+  forall A bal ratio ok,
+    gen_pullCoin A bal ratio ok
+    = match pull_coin ratio bal A with
+      | CPanic => GoSem.GPanic
+      | CMove d _ => GVal (if d =? 0 then [] else [Ev "to-distribute"%string [d]; Ev "escrow-to-module"%string [d]])
+      end /\
+    (forall d m, pull_coin ratio bal A = CMove d m -> m = (if d <=? bal then d else 0) /\ 0 <= d).
+Proof.
+  intros A bal ratio ok. exact (conj (gen_pullCoin_model A bal ratio ok) (pull_coin_moves ratio bal A)).
+Qed.
+Print Assumptions C12_code_tie_coin_step.
